@@ -91,13 +91,13 @@ Definition swap2 {A} (l : list A) : list A :=
 Definition model_run (plugin : string) (sh : shape) (args : list val) : option run_result :=
   match sh with
   | ShSig s =>
-      if String.eqb plugin "curry" then Some (run_curry res15 fixed FUEL s (prim_flat s) args)
-      else if String.eqb plugin "flip" then Some (run_flip res15 fixed FUEL s (prim_flat s) args)
-      else if String.eqb plugin "apply" then Some (run_apply res15 fixed FUEL s (prim_flat s) args)
-      else if String.eqb plugin "rt" then Some (run_roundtrip res15 fixed FUEL s (prim_flat s) args)
+      if String.eqb plugin "curry" then Some (run_curry res15 hygienic FUEL s (prim_flat s) args)
+      else if String.eqb plugin "flip" then Some (run_flip res15 hygienic FUEL s (prim_flat s) args)
+      else if String.eqb plugin "apply" then Some (run_apply res15 hygienic FUEL s (prim_flat s) args)
+      else if String.eqb plugin "rt" then Some (run_roundtrip res15 hygienic FUEL s (prim_flat s) args)
       else None
   | ShCsig c =>
-      if String.eqb plugin "uncurry" then Some (run_uncurry res15 fixed FUEL c (prim_curried c) args)
+      if String.eqb plugin "uncurry" then Some (run_uncurry res15 hygienic FUEL c (prim_curried c) args)
       else None
   | ShTuple n =>
       if String.eqb plugin "tuple" then
@@ -124,15 +124,6 @@ Definition spec_run (plugin : string) (sh : shape) (args : list val) : option se
   | ShTuple _ => Some (ret_sexp args [])
   end.
 
-(* names as the generator sees them after its own renaming *)
-Definition renamed_names (plugin : string) (sh : shape) : list name * list name :=
-  match sh with
-  | ShSig s => (names (rename_blank fixed "param_" (s_params s)), names (s_results s))
-  | ShCsig c => ((names (rename_blank fixed "param_" (c_outer c)) ++
-                  names (rename_blank fixed "innerParam_" (c_inner c)))%list, names (c_results c))
-  | ShTuple _ => ([], [])
-  end.
-
 Definition variadic_of (sh : shape) : bool :=
   match sh with ShSig s => s_variadic s | ShCsig c => c_variadic c | ShTuple _ => false end.
 
@@ -143,26 +134,22 @@ Definition arity_ok (plugin : string) (sh : shape) : bool :=
   | ShTuple n => Nat.leb 1 n
   end.
 
-(* inside the guard of plumb_correct_* / tuple_spec / uncurry_curry_id *)
+(* inside the hypotheses of plumb_correct_* / tuple_spec / uncurry_curry_id: a signature Go accepts
+   (the names are looked at as the user wrote them: no name is excluded any more), not variadic,
+   of an arity the plugin takes *)
 Definition in_guard (plugin : string) (sh : shape) : bool :=
   match sh with
   | ShTuple n => Nat.leb 1 n
-  | _ => let '(ps, rs) := renamed_names plugin sh in
-         guardb ps rs && negb (variadic_of sh) && arity_ok plugin sh
+  | ShSig s => src_ok (names (s_params s)) (names (s_results s))
+               && negb (variadic_of sh) && arity_ok plugin sh
+  | ShCsig c => nodupb (filter bindable (names (c_outer c)))
+                && src_ok (names (c_inner c)) (names (c_results c))
+                && negb (variadic_of sh) && arity_ok plugin sh
   end.
 
-(* the classes of shapes on which the generated code is known not to compile *)
+(* shapes for which the model predicts output that does not compile are all outside the property *)
 Definition ill_class (plugin : string) (sh : shape) : string :=
-  let '(ps, rs) := renamed_names plugin sh in
-  if variadic_of sh then "variadic"
-  else if memb "f" (ps ++ rs)%list then "known:c15-name-f"
-  else match sh with
-       | ShCsig c =>
-           if existsb (fun n => memb n (names (rename_blank fixed "innerParam_" (c_inner c))))
-                      (filter bindable (names (rename_blank fixed "param_" (c_outer c))))
-           then "known:c15-uncurry-dup" else "ill-other"
-       | _ => "ill-other"
-       end.
+  if variadic_of sh then "variadic" else "ill-other".
 
 (* ---------- tags: plugin / naming class / arity / results ---------- *)
 Definition src_names (sh : shape) : list name :=
@@ -172,12 +159,35 @@ Definition src_names (sh : shape) : list name :=
   | ShTuple _ => []
   end.
 
+Definition res_names (sh : shape) : list name :=
+  match sh with
+  | ShSig s => names (s_results s)
+  | ShCsig c => names (c_results c)
+  | ShTuple _ => []
+  end.
+
+(* a clash the generator has to resolve: a name of the outer level of uncurry that is also a name of
+   the inner level or of a result *)
+Definition level_clash (sh : shape) : bool :=
+  match sh with
+  | ShCsig c => existsb (fun n => memb n (names (c_inner c) ++ names (c_results c))%list)
+                        (filter bindable (names (c_outer c)))
+  | _ => false
+  end.
+
+Definition has_pre (n : name) : bool := prefix "param_" n || prefix "innerParam_" n.
+
 Definition naming_class (sh : shape) : string :=
   let ns := src_names sh in
+  let rs := res_names sh in
   (if existsb (fun n => String.eqb n "") ns then "unnamed" else "named") ++
   (if existsb (fun n => String.eqb n "_") ns then "+blank" else "") ++
-  (if existsb (fun n => prefix "param_" n || prefix "innerParam_" n) ns then "+prefix" else "") ++
-  (if existsb (fun n => String.eqb n "f") ns then "+f" else "").
+  (if existsb has_pre ns then "+prefix" else "") ++
+  (if existsb (fun n => String.eqb n "f") ns then "+f" else "") ++
+  (if existsb (fun n => prefix "f_" n) (ns ++ rs)%list then "+f_" else "") ++
+  (if existsb (fun n => String.eqb n "f") rs then "+rf" else "") ++
+  (if existsb has_pre rs then "+rprefix" else "") ++
+  (if level_clash sh then "+dup" else "").
 
 Definition nparams (sh : shape) : nat :=
   match sh with ShSig s => List.length (s_params s)
@@ -192,7 +202,6 @@ Definition tag_of (plugin : string) (sh : shape) : string :=
   plugin ++ "/" ++ naming_class sh ++ "/n" ++ itoa (nparams sh) ++ "/r" ++ itoa (nresults sh).
 
 Definition is_ok (r : run_result) : bool := match r with ROk _ _ => true | _ => false end.
-Definition is_known (cls : string) : bool := prefix "known:" cls.
 
 Definition verdict_of (tag : string) (model_ok spec_ok guard : bool) (m : sexp) : verdict :=
   {| v_known := true; v_model_ok := model_ok; v_spec_ok := spec_ok; v_guard := guard;
@@ -214,15 +223,9 @@ Definition eval15 (e : sexp) : verdict :=
                 if is_ok m then
                   verdict_of tag real_ok real_ok (in_guard plugin sh) (Sym "wellformed")
                 else
-                  let cls := ill_class plugin sh in
-                  if is_known cls then
-                    if real_ok
-                    then verdict_of ("not-reproduced:" ++ cls ++ "/" ++ plugin) true true false (Sym "ill-or-repaired")
-                    else verdict_of (cls ++ "/" ++ plugin) true false false (run_sexp m)
-                  else
-                    (* outside the property: variadic (the model has no types, and `b ...interface{}`
-                       happens to compile: no prediction) or a shape the harness does not build *)
-                    verdict_of (cls ++ "/" ++ tag) (variadic_of sh || negb real_ok) true false (run_sexp m)
+                  (* outside the property: variadic (the model has no types, and `b ...interface{}`
+                     happens to compile: no prediction) or a shape the harness does not build *)
+                  verdict_of (ill_class plugin sh ++ "/" ++ tag) (variadic_of sh || negb real_ok) true false (run_sexp m)
             end
         end
       else bad_line
@@ -235,9 +238,6 @@ Definition eval15 (e : sexp) : verdict :=
                 let tag := "call/" ++ tag_of plugin sh in
                 if is_ok m then
                   verdict_of tag (sexp_eqb (run_sexp m) real) (sexp_eqb sp real) (in_guard plugin sh) (run_sexp m)
-                else if is_known (ill_class plugin sh) then
-                  (* the known defect was repaired: the code must now meet the specification *)
-                  verdict_of ("not-reproduced:" ++ ill_class plugin sh ++ "/" ++ tag) (sexp_eqb sp real) (sexp_eqb sp real) true sp
                 else
                   verdict_of tag false (sexp_eqb sp real) false (run_sexp m)
             | _, _ => bad_line
